@@ -70,21 +70,21 @@ type vf2Gpdu struct {
 }
 
 type vf2Stack struct {
-	k      *simk.Kernel
-	mux    *nl.Mux
-	conns  []*simk.Conn
-	mc     *simk.Conn
-	bsnl   *buffnetlink.Server
-	ps     *perio.Server
-	g      *forwarder.Gtp5g
-	gtpu   *net.UDPConn
-	gnbs   []*net.UDPConn
-	graws  []syscall.RawConn
-	h      *vf2Handler
-	wg     sync.WaitGroup
-	srv    *PfcpServer
-	srvwg  sync.WaitGroup
-	psmark chan struct{}
+	k       *simk.Kernel
+	mux     *nl.Mux
+	conns   []*simk.Conn
+	mc      *simk.Conn
+	bsnl    *buffnetlink.Server
+	ps      *perio.Server
+	g       *forwarder.Gtp5g
+	gtpu    *net.UDPConn
+	gnbs    []*net.UDPConn
+	graws   []syscall.RawConn
+	h       *vf2Handler
+	wg      sync.WaitGroup
+	srv     *PfcpServer
+	srvwg   sync.WaitGroup
+	psmark  chan struct{}
 	stopped bool
 }
 
@@ -283,11 +283,11 @@ func vf2ParseGpdu(to string, b []byte) vf2Gpdu {
 
 type vf2Event struct {
 	vfEvent
-	Pdr    int    `json:"pdr"`
-	Action int    `json:"action"`
-	N      int    `json:"n"`    // kbuf: number of packets in the burst
-	Base   int    `json:"base"` // kbuf: first payload number
-	Period int    `json:"period"`
+	Pdr    int       `json:"pdr"`
+	Action int       `json:"action"`
+	N      int       `json:"n"`    // kbuf: number of packets in the burst
+	Base   int       `json:"base"` // kbuf: first payload number
+	Period int       `json:"period"`
 	KReps  []vf2KRep `json:"kreps"`
 }
 
@@ -300,6 +300,21 @@ type vf2KRep struct {
 	Vals vfVals `json:"vals"`
 }
 
+// vf2KRule is one rule present in the (simulated) kernel's tables
+type vf2KRule struct {
+	Kind string `json:"kind"`
+	SEID string `json:"seid"`
+	ID   int    `json:"id"`
+}
+
+func vf2KRules(k *simk.Kernel) []vf2KRule {
+	out := []vf2KRule{}
+	for _, r := range k.Rules() {
+		out = append(out, vf2KRule{Kind: r.Kind, SEID: strconv.FormatUint(r.SEID, 10), ID: int(r.ID)})
+	}
+	return out
+}
+
 type vf2Q struct {
 	SEID string `json:"seid"`
 	PDR  int    `json:"pdr"`
@@ -307,19 +322,20 @@ type vf2Q struct {
 }
 
 type vf2Line struct {
-	Tr     string      `json:"tr"`
-	I      int         `json:"i"`
-	E      vf2Event    `json:"e"`
-	Calls  []vfCall    `json:"calls"`
-	Gets   int         `json:"gets"`
-	MQ     [][]string  `json:"mq"` // OIDs ("seid/urr") of every multi-URR query, batch by batch
-	Out    []vfOut     `json:"out"`
-	Gpdu   []vf2Gpdu   `json:"gpdu"`
-	Snap   vfSnap      `json:"snap"`
-	Queues []vf2Q      `json:"queues"`
+	Tr      string     `json:"tr"`
+	I       int        `json:"i"`
+	E       vf2Event   `json:"e"`
+	Calls   []vfCall   `json:"calls"`
+	Gets    int        `json:"gets"`
+	MQ      [][]string `json:"mq"` // OIDs ("seid/urr") of every multi-URR query, batch by batch
+	Out     []vfOut    `json:"out"`
+	Gpdu    []vf2Gpdu  `json:"gpdu"`
+	Snap    vfSnap     `json:"snap"`
+	Queues  []vf2Q     `json:"queues"`
 	Tickers int        `json:"tickers"`
-	Pkts   []string    `json:"pkts"` // kbuf: payloads of the burst, in emission order
-	Fatal  string      `json:"fatal"`
+	KRules  []vf2KRule `json:"krules"` // the kernel's rule tables after the step
+	Pkts    []string   `json:"pkts"`   // kbuf: payloads of the burst, in emission order
+	Fatal   string     `json:"fatal"`
 }
 
 func vf2Payload(k int) []byte {
@@ -332,10 +348,34 @@ func vf2Payload(k int) []byte {
 	return b
 }
 
+// vf2Tickers counts the period-ticker goroutines of perio.Server once they are at rest. A goroutine that was
+// just created (its frame is still the compiler's go-wrapper) or was just told to stop (runnable until it
+// returns) is in transit: the count is taken when none is runnable or running, so that it does not depend on
+// the scheduler.
 func vf2Tickers() int {
-	buf := make([]byte, 1<<20)
-	n := runtime.Stack(buf, true)
-	return strings.Count(string(buf[:n]), "perio.(*PERIOGroup).newTicker.func1")
+	deadline := time.Now().Add(10 * time.Second)
+	for {
+		buf := make([]byte, 4<<20)
+		n := runtime.Stack(buf, true)
+		total, moving := 0, 0
+		for _, g := range strings.Split(string(buf[:n]), "\n\n") {
+			if !strings.Contains(g, "perio.(*PERIOGroup).newTicker.") {
+				continue
+			}
+			total++
+			hdr := g
+			if k := strings.IndexByte(g, '\n'); k >= 0 {
+				hdr = g[:k]
+			}
+			if strings.Contains(hdr, "[runnable") || strings.Contains(hdr, "[running") {
+				moving++
+			}
+		}
+		if moving == 0 || time.Now().After(deadline) {
+			return total
+		}
+		time.Sleep(200 * time.Microsecond)
+	}
 }
 
 func vf2Calls(log []simk.Req) ([]vfCall, int, [][]string) {
@@ -416,7 +456,9 @@ func TestVerifL2(t *testing.T) {
 		x.gate.idle(s)
 	}
 	logger.Log.AddHook(vfFatalHook{x})
-	logger.Log.ExitFunc = func(code int) { x.noteFatal(fmt.Sprintf("exit(%d) via logger (recovered panic in the event loop)", code)) }
+	logger.Log.ExitFunc = func(code int) {
+		x.noteFatal(fmt.Sprintf("exit(%d) via logger (recovered panic in the event loop)", code))
+	}
 
 	fi, err := os.Open(in)
 	if err != nil {
@@ -468,7 +510,7 @@ func TestVerifL2(t *testing.T) {
 		r := &vfRun{srv: st.srv, twin: vfNewTwin(&x.tok)}
 		nw.drain()
 		st.k.TakeLog()
-		_ = enc.Encode(vf2Line{Tr: s.ID, I: 0, E: init, Calls: []vfCall{}, MQ: [][]string{}, Out: []vfOut{}, Gpdu: []vf2Gpdu{}, Queues: []vf2Q{},
+		_ = enc.Encode(vf2Line{Tr: s.ID, I: 0, E: init, Calls: []vfCall{}, MQ: [][]string{}, Out: []vfOut{}, Gpdu: []vf2Gpdu{}, Queues: []vf2Q{}, KRules: []vf2KRule{},
 			Snap: vfSnap{Rx: []vfRx{}, Tx: []vfTx{}, Free: []string{}, Live: []string{}, Nodes: []string{}}, Tickers: vf2Tickers() - 1, Pkts: []string{}})
 		dead := false
 		for i := 1; i < len(s.Events) && !dead; i++ {
@@ -606,6 +648,7 @@ func TestVerifL2(t *testing.T) {
 			}
 			ln.Snap = snap
 			ln.Calls, ln.Gets, ln.MQ = vf2Calls(st.k.TakeLog())
+			ln.KRules = vf2KRules(st.k)
 			ln.Out = []vfOut{}
 			for _, d := range append(early, nw.drain()...) {
 				o := x.abstract(d[0], []byte(d[1]))
@@ -636,7 +679,7 @@ func TestVerifL2(t *testing.T) {
 		// closing line: what is left after Stop (timer goroutines must be gone, everything must have terminated)
 		serr := st.stop(10 * time.Second)
 		if !dead {
-			fin := vf2Line{Tr: s.ID, I: len(s.Events), Calls: []vfCall{}, MQ: [][]string{}, Out: []vfOut{}, Gpdu: []vf2Gpdu{}, Queues: []vf2Q{},
+			fin := vf2Line{Tr: s.ID, I: len(s.Events), Calls: []vfCall{}, MQ: [][]string{}, Out: []vfOut{}, Gpdu: []vf2Gpdu{}, Queues: []vf2Q{}, KRules: []vf2KRule{},
 				Snap: vfSnap{Rx: []vfRx{}, Tx: []vfTx{}, Free: []string{}, Live: []string{}, Nodes: []string{}}, Pkts: []string{}, Tickers: vf2Tickers()}
 			fin.E = init
 			fin.E.T = "stop"
